@@ -517,6 +517,8 @@ def scenario(rng, sched="scripted", nmax=6, sess_max=7, horizon=25, kinds=("EVSE
         # the type cannot hold exactly is handed over as it is
         net["num_type"] = {"phase": rng2.choice(["int8", "int16", "float16", "float32", "int32"]),
                            "voltage": rng2.choice(["int16", "uint16", "uint8", "float32", "float16", "int32"])}
+    if rng2.random() < 0.12:
+        d["events_as"] = rng2.choice(["tuple", "generator", "iter", "map", "deque", "dict_values"])
     if rng2.random() < int_type_p:
         # period indices as they come out of a numpy table / a pandas column: numpy integer scalars.  Signed ones only: with
         # unsigned indices the library's own differences (estimated departure - now, arrival - now) wrap around for an overdue
